@@ -27,6 +27,11 @@ def ops : List (String × Op) := [
   ("fsq", do
       let q ← pDict
       pure ("ok " ++ (match filterSort q with | none => "None" | some d => showDict d))),
+  ("gbiotype", do
+      let tys ← pList pStr
+      pure (match geneBiotype (tys.map txBiotypeName) with
+            | some b => "ok " ++ encodeStr b
+            | none => "err! ValueError")),
   ("ltgroup", do
       let fs ← pList pFeat
       pure (showQ showGroups (groupByLocusTag fs)))
